@@ -278,3 +278,20 @@ m("c02-wrapper-swapped-ctx", "src/include/abtd_fcontext.h",
   """    switch_fcontext(&p_new->ctx, &p_old->ctx);""",
   """    switch_fcontext(&p_old->ctx, &p_new->ctx);""", "C02.R1")
 revert("f2-malloc-stack-free-base", "163ff12", "C15.R1")
+revert("f5-create-many-handle", "9ac9003", "C18.R1")
+revert("f7-sched-key-commit-point", "2b51379", "C18.R3")
+m("c18-leak-on-error-path", "src/pool/fifo_wait.c",
+  """        pthread_mutex_destroy(&p_data->mutex);
+        ABTU_free(p_data);
+        return ABT_ERR_SYS;""",
+  """        pthread_mutex_destroy(&p_data->mutex);
+        return ABT_ERR_SYS;""", "C18.R2")
+m("c18-ladder-stage-skipped", "src/stream.c",
+  """    if (init_stage >= 2) {
+        p_sched->used = ABTI_SCHED_NOT_USED;
+        ABTI_mem_finalize_local(p_newxstream);
+    }""",
+  """    if (init_stage >= 3) {
+        p_sched->used = ABTI_SCHED_NOT_USED;
+        ABTI_mem_finalize_local(p_newxstream);
+    }""", "C18.R2")
